@@ -66,6 +66,14 @@ CASES = [
     ("directed: get_sources lists the targets", DH, "return [edge[0] for edge in self._edge_list.keys()]", "return [edge[1] for edge in self._edge_list.keys()]", 0, ["DirectedHypergraph.get_sources"], "ensures:members"),
     ("directed: is_uniform measures the source only", DH, "edge = set(edge[0]).union(set(edge[1]))", "edge = set(edge[0])", 0, ["DirectedHypergraph.is_uniform"], "loop0:preserved"),
     ("jaccard over the intersection twice", "hypergraphx/measures/edge_similarity.py", "return len(a.intersection(b)) / len(a.union(b))", "return len(a.intersection(b)) / len(a.intersection(b))", 0, ["jaccard_similarity"], "ensures:result"),
+    ("extraction by order pairs hyperedges with their ids instead of their weights", HG,
+     "                edge_weights = [self.get_weight(edge) for edge in edges]\n                h.add_edges(edges, edge_weights)\n            else:\n                h.add_edges(edges)\n\n            for node in h.get_nodes():",
+     "                edge_weights = [self._edge_list[edge] for edge in edges]\n                h.add_edges(edges, edge_weights)\n            else:\n                h.add_edges(edges)\n\n            for node in h.get_nodes():", 0,
+     ["Hypergraph.get_edges@sub_iso"], "loop0:entry:W"),
+    ("multiplex: metadata table listed from the weights table", MH, "                for k in self._edge_metadata.keys()", "                for k in self._weights.keys()", 0,
+     ["MultiplexHypergraph.get_edges@md"], "raises:KeyError:undeclared"),
+    ("multiplex: remove_edge leaves the metadata entry", MH, "        if edge_id in self._edge_metadata:\n            del self._edge_metadata[edge_id]\n\n        nodes, layer = edge", "        nodes, layer = edge", 0,
+     ["MultiplexHypergraph.remove_edge"], "wf.em_live"),
     # ---- hygiene-only and behaviour-preserving changes: nothing may fail
     ("hash pre-image: renamed local", HG, "            edge_id = self._edge_list[edge]\n            edges.append(\n                {\n                    \"nodes\": sorted_edge,\n                    \"weight\": self._weights.get(edge_id, 1),\n                    \"metadata\": self._edge_metadata.get(edge_id, {}),",
      "            eid = self._edge_list[edge]\n            edges.append(\n                {\n                    \"nodes\": sorted_edge,\n                    \"weight\": self._weights[eid],\n                    \"metadata\": self._edge_metadata[eid],", 0,
